@@ -3,7 +3,7 @@
 checks as they are now, several at a time, and record the verdicts in their meta.json (DESIGN.md sections 12 and
 12b are generated from those files).
 
-usage: sweep.py [--jobs N] [--seeded] [--benign] [--only ID,ID,...] [--seeds 0,1]
+usage: sweep.py [--jobs N] [--seeded] [--benign] [--only ID,ID,...] [--props C01,C02] [--seeds 0,1] [--no-restore]
 
 A job never runs two checks of the same property at once (the generated tables and the evidence file of a
 property are shared); different properties run in parallel, each run works on a private copy of its driver
@@ -152,16 +152,18 @@ def main():
     jobs = int(a[a.index('--jobs') + 1]) if '--jobs' in a else 4
     seeds = [int(x) for x in a[a.index('--seeds') + 1].split(',')] if '--seeds' in a else [0, 1]
     only = set(a[a.index('--only') + 1].split(',')) if '--only' in a else None
+    props = set(a[a.index('--props') + 1].split(',')) if '--props' in a else None
+    norestore = '--no-restore' in a
     do_seeded = '--seeded' in a or '--benign' not in a
     do_benign = '--benign' in a or '--seeded' not in a
     work = []
     if do_seeded:
         for sid in sorted(os.listdir(os.path.join(VERIF, 'seeded'))):
-            if os.path.exists(os.path.join(VERIF, 'seeded', sid, 'patch.diff')) and (not only or sid in only):
+            if os.path.exists(os.path.join(VERIF, 'seeded', sid, 'patch.diff')) and (not only or sid in only) and (not props or sid.split('-')[0] in props):
                 work.append((seed_job, sid))
     if do_benign:
         for bid in sorted(os.listdir(os.path.join(VERIF, 'benign'))):
-            if os.path.exists(os.path.join(VERIF, 'benign', bid, 'patch.diff')) and (not only or bid in only):
+            if os.path.exists(os.path.join(VERIF, 'benign', bid, 'patch.diff')) and (not only or bid in only) and (not props or bid.split('-')[0] in props):
                 work.append((benign_job, bid))
     # interleave properties so that neighbouring jobs rarely want the same lock
     work.sort(key=lambda w: (w[1].split('-')[1], w[1].split('-')[0]))
@@ -171,7 +173,7 @@ def main():
             ex.submit(fn, ident, seeds)
             touched.add(ident.split('-')[0])
     # restore tables / evidence from /repo itself
-    for p in sorted(LOCKS):
+    for p in ([] if norestore else sorted(props or LOCKS)):
         rc, out = sh('./check %s --tier quick' % p, cwd=VERIF, timeout=3000)
         say('restore', p, 'exit', rc)
     return 0
